@@ -38,6 +38,18 @@ func (c *c08Case) base() string {
 		return "select key, count(1) where value = 'y' group by key order by key desc"
 	case "delete":
 		return "delete where value = 'y'"
+	case "delete-in":
+		// a literal key set (point reads / direct-removal shortcut): the keys whose value is y
+		var ks []string
+		for _, p := range c.Store {
+			if p.V == "y" {
+				ks = append(ks, "'"+p.K+"'")
+			}
+		}
+		if len(ks) == 0 {
+			ks = []string{"'zz'"}
+		}
+		return "delete where key in (" + strings.Join(ks, ", ") + ")"
 	}
 	return "?"
 }
@@ -69,7 +81,7 @@ func (c08) Info() core.Info {
 	}
 }
 
-var c08Kinds = []string{"select", "ordered", "aggr", "aggr-ordered", "delete", "ordered-ties"}
+var c08Kinds = []string{"select", "ordered", "aggr", "aggr-ordered", "delete", "ordered-ties", "delete-in"}
 
 type c08Unit struct {
 	kind string
@@ -262,7 +274,7 @@ func c08RunUnlimited(c *c08Case) *c08Unlimited {
 		for _, p := range rev {
 			want = append(want, ref.T(p.K).Canon()+" | "+ref.I(1).Canon())
 		}
-	case "delete":
+	case "delete", "delete-in":
 		var rest []store.Pair
 		for _, p := range st0(c.Store) {
 			if p.V != "y" {
@@ -307,7 +319,7 @@ func c08Judge(c *c08Case, unl *c08Unlimited) (f *core.Failure, nontrivial bool, 
 		}
 		return rows[lo:hi]
 	}
-	if c.Kind == "delete" {
+	if c.Kind == "delete" || c.Kind == "delete-in" {
 		// accepted keys in key order; the deleted set must be the slice
 		var acc []string
 		for _, p := range st0(c.Store) {
